@@ -347,15 +347,14 @@ theorem sense_batches_nonempty (n B : Nat) (hB : 0 < B) (c : Int)
     0 ≤ Gen.senseMpsLo c B n ∧ Gen.senseMpsLo c B n < n := by
   unfold Gen.senseBatchRange at hc
   rw [mem_pyRange0'] at hc
-  unfold Gen.senseNumCoilBatches at hc
-  rw [pyDiv_of_pos _ (by exact_mod_cast hB)] at hc
   rw [(senseMps_lo_hi _ _ _).1]
   obtain ⟨h0, h1⟩ := hc
   have hBz : (0 : Int) < B := by exact_mod_cast hB
+  -- only the CHARACTERISATION of the generated `num_coil_batches` is used (not its shape)
+  obtain ⟨hq, _⟩ := numCoilBatches_char n B hBz
   refine ⟨by positivity, ?_⟩
-  have h2 : c + 1 ≤ ((n : Int) + B - 1) / B := by omega
-  have h3 := (Int.le_ediv_iff_mul_le hBz).mp h2
-  nlinarith
+  have h2 := mul_le_mul_of_nonneg_right (show c ≤ Gen.senseNumCoilBatches n B - 1 by omega) hBz.le
+  linarith
 
 /-- **sense_adjoint_batch_sum_partial.** The adjoint of the batched operator is `Hstack` of the batch
     adjoints: a sum over batches of the per-batch sums `Σ_{c ∈ batch} t(mps_c, y_c)`.  For every per-coil
